@@ -25,7 +25,7 @@ inductive Err
   | diffPhaseRefs | durTooShort | durTooLong | notResizable
   | ampOverMax | detOverMax | avgAmpLow | dmmPositive | dmmBottom | dmmTotalBottom
   | overMaxSeq | emptyTargets | notLocal | tooManyTargets | unknownQubit
-  | noBasis | alignUnknown | alignDup | alignFew | badMeasBasis | noDmm | badPulse
+  | noBasis | alignUnknown | alignDup | alignFew | badMeasBasis | noDmm | badPulse | nonFinite
   -- protocol-level (never produced by Python): the driver needs the fall times of
   -- the detuned-delay pulse (detuning_off, duration) on channel `n`
   | oracleMiss (n : ChName) (detOff : Rat) (dur : Nat)
